@@ -561,6 +561,18 @@ def adaptShapeModelled : List (String × String) := [
   ("returns", "3"),
   ("loops-or-nested-defs", "0")]
 
+/-- what the model knows of class `_Inline` and of the writes on the node object: `pre_init` stores the
+    private copy, `graph` / `opset_req` read it, `infer_output_types` = `typeCheck` + declared output
+    types, `to_onnx` = `toOnnx`, `propagate_values` (C09's subject; no influence on the built model),
+    `adapt_inline` swaps and restores `model` (`swapIR`); nothing else is stored on the node - in
+    particular no cache of converted or renamed nodes (`Generated.InlineFacts.inlineMembers`,
+    `C08.generated_inline_members`) -/
+def inlineMembersModelled : List String := [
+  "attr:attrs", "attr:inputs", "attr:model", "attr:op_type=", "attr:outputs", "bases:_InternalNode",
+  "class:Attributes", "class:Inputs", "class:Outputs", "def:graph@property", "def:infer_output_types",
+  "def:opset_req@property", "def:pre_init", "def:propagate_values", "def:to_onnx",
+  "write:adapt_inline:model", "write:pre_init:model"]
+
 /-- `Scope.of((node, node_name), *var_names.items())`: every value name of the build, no reserved
     names, no counters -/
 def freshCtx (c : Ctx) (varNames : List String) : Ctx :=
